@@ -355,27 +355,76 @@ func c08EntryName(a *An, df *DecodeFacts, hv []*Visit, hctx *Ctx) {
 
 // nulScanLoop: the high bound of sl is a loop variable of a loop in fn that tests bytes of the same slice against 0.
 func nulScanLoop(fn *ssa.Function, sl *ssa.Slice) bool {
-	if _, isPhi := stripConv(sl.High).(*ssa.Phi); !isPhi {
+	ph, isPhi := stripConv(sl.High).(*ssa.Phi)
+	if !isPhi {
 		return false
 	}
-	for _, b := range fn.Blocks {
-		for _, in := range b.Instrs {
-			bo, ok := in.(*ssa.BinOp)
-			if !ok || (bo.Op != token.EQL && bo.Op != token.NEQ) {
+	var loop *Loop
+	for _, l := range naturalLoops(fn) {
+		if l.Header == ph.Block() {
+			loop = l
+		}
+	}
+	if loop == nil {
+		return false
+	}
+	isByteTest := func(v ssa.Value) bool {
+		for {
+			if u, ok := v.(*ssa.UnOp); ok && u.Op == token.NOT {
+				v = u.X
 				continue
 			}
-			for _, pair := range [][2]ssa.Value{{bo.X, bo.Y}, {bo.Y, bo.X}} {
-				k, isK := constUint(pair[1])
-				if !isK || k != 0 {
-					continue
-				}
-				if ld, isLd := stripConv(pair[0]).(*ssa.UnOp); isLd && ld.Op == token.MUL {
-					if ia, isIA := ld.X.(*ssa.IndexAddr); isIA && ia.X == sl.X {
-						return true
-					}
+			break
+		}
+		bo, ok := v.(*ssa.BinOp)
+		if !ok || (bo.Op != token.EQL && bo.Op != token.NEQ) {
+			return false
+		}
+		for _, pair := range [][2]ssa.Value{{bo.X, bo.Y}, {bo.Y, bo.X}} {
+			k, isK := constUint(pair[1])
+			if !isK || k != 0 {
+				continue
+			}
+			if ld, isLd := stripConv(pair[0]).(*ssa.UnOp); isLd && ld.Op == token.MUL {
+				if ia, isIA := ld.X.(*ssa.IndexAddr); isIA && ia.X == sl.X {
+					return true
 				}
 			}
 		}
+		return false
 	}
-	return false
+	isBoundTest := func(v ssa.Value) bool {
+		bo, ok := v.(*ssa.BinOp)
+		if !ok {
+			return false
+		}
+		switch bo.Op {
+		case token.GTR, token.LSS, token.GEQ, token.LEQ, token.NEQ, token.EQL:
+		default:
+			return false
+		}
+		for _, pair := range [][2]ssa.Value{{bo.X, bo.Y}, {bo.Y, bo.X}} {
+			if stripConv(pair[0]) == ssa.Value(ph) {
+				if k, isK := constUint(pair[1]); isK && k == 0 {
+					return true
+				}
+			}
+		}
+		return false
+	}
+	sawByte := false
+	for _, ex := range loop.exits() {
+		iff, ok := ex.From.Instrs[len(ex.From.Instrs)-1].(*ssa.If)
+		if !ok {
+			return false
+		}
+		switch {
+		case isByteTest(iff.Cond):
+			sawByte = true
+		case isBoundTest(iff.Cond):
+		default:
+			return false // the scan can stop for another reason (a counter, a limit): trailing NULs may survive
+		}
+	}
+	return sawByte
 }
